@@ -1,6 +1,7 @@
 import Driver.Common
 import IoraModel.Model.RingBuffer
 import IoraModel.Model.BlockingQueue
+import IoraModel.Model.RingSpsc
 /-! Driver for C10 (`iora_model queues`): sequential ring ops (`ring …`), blocking-queue ops (`bq …`) and replay of
 DetSched schedules through the monitor model (`bq replay …`). -/
 namespace Iora.Driver.Queues
@@ -10,6 +11,8 @@ structure St where
   ring : Ring.Ring Nat := Ring.mkStatic 0 1
   dynamic : Bool := false
   bq : Option (Monitor.State BQ.Data BQ.Loc) := none
+  spsc : Spsc.S := { pTodo := [], qTodo := [] }
+  spscCfg : Spsc.Cfg := { C := 1, pAcq := true, qAcq := true, pRel := true, qRel := true }
 
 def parseList (s : String) : Option (List Nat) :=
   if s = "-" then some [] else (s.splitOn ",").mapM (·.toNat?)
@@ -65,6 +68,45 @@ def ringStep (st : St) : List String → St × String
     if !st.dynamic then (st, "bad-op") else
     match u64? n with
     | some n => let (d, r) := Ring.resize st.ring n; ({ st with ring := r }, s!"{d.toNat} cap={r.cap.toNat}" ++ tailOf r)
+    | none => (st, "bad-op")
+  | _ => (st, "bad-op")
+
+/-! ### the SPSC interleaving model, one call at a time with fresh reads (same answers as `ring …` expected) -/
+def spscTail (s : Spsc.S) : String := s!" | h={s.head} t={s.tail}"
+
+def spscStep (st : St) : List String → St × String
+  | ["new", k, c] =>
+    match c.toNat? with
+    | some n =>
+      let cap := if k = "s" then (if isPow2 n && n ≤ 64 then some n else none)
+                 else if k = "d" then (if n < 2 ^ 64 then some (Ring.nextPowerOfTwo (UInt64.ofNat n)).toNat else none) else none
+      match cap with
+      | some cap => ({ st with spsc := { pTodo := [], qTodo := [] }, spscCfg := { st.spscCfg with C := cap } }, s!"ok cap={cap}")
+      | none => (st, "bad-op")
+    | none => (st, "bad-op")
+  | ["push", v] | ["pushm", v] =>
+    match v.toNat? with
+    | some x =>
+      let s := Spsc.seqProducer st.spscCfg st.spsc (.push x)
+      ({ st with spsc := s }, (match s.pRets.getLast? with | some 1 => "1" | _ => "0") ++ spscTail s)
+    | none => (st, "bad-op")
+  | ["pushb", l] =>
+    match parseList l with
+    | some xs =>
+      let s := Spsc.seqProducer st.spscCfg st.spsc (.pushBatch xs)
+      ({ st with spsc := s }, (match s.pRets.getLast? with | some n => toString n | none => "?") ++ spscTail s)
+    | none => (st, "bad-op")
+  | ["pop"] =>
+    let s := Spsc.seqConsumer st.spscCfg st.spsc .pop
+    ({ st with spsc := s }, (match s.qRets.getLast? with | some [x] => s!"1 {x}" | _ => "0") ++ spscTail s)
+  | ["peek"] =>
+    let s := Spsc.seqConsumer st.spscCfg st.spsc .peek
+    ({ st with spsc := s }, (match s.qRets.getLast? with | some [x] => s!"1 {x}" | _ => "0") ++ spscTail s)
+  | ["popb", n] =>
+    match n.toNat? with
+    | some n =>
+      let s := Spsc.seqConsumer st.spscCfg st.spsc (.popBatch n)
+      ({ st with spsc := s }, (match s.qRets.getLast? with | some xs => s!"{xs.length} {showList xs}" | none => "?") ++ spscTail s)
     | none => (st, "bad-op")
   | _ => (st, "bad-op")
 
@@ -204,6 +246,7 @@ def bqStep (st : St) : List String → St × String
 
 def step (st : St) : List String → St × String
   | "ring" :: rest => ringStep st rest
+  | "spsc" :: rest => spscStep st rest
   | "bq" :: rest => bqStep st rest
   | _ => (st, "bad-op")
 
